@@ -131,10 +131,12 @@ Theorem C16_in_logger_guard_loss : let s := exec true guard_sched (cinit [MStop]
 Proof. exact conc_guard_loss. Qed.
 Print Assumptions C16_in_logger_guard_loss.
 
-(* non-vacuity: a schedule on which the backlog limit is hit, a drop is reported and fini completes *)
+(* non-vacuity: a schedule on which the backlog limit is hit, a drop is reported and fini completes
+   (message lengths derived from the regenerated constants, so that a different limit re-checks) *)
 Example C16_conc_example :
+  let k := LOGT_REC_SIZE + 1 + 10 in
   let s := exec true (repeat 2%nat 11 ++ repeat 1%nat 8 ++ repeat 2%nat 4 ++ repeat 0%nat 10 ++ repeat 1%nat 10 ++ [0%nat])
-                (cinit [MStop] [[255951; 255951; 100; 5]]) in
+                (cinit [MStop] [[LOGT_LIMIT - (LOGT_REC_SIZE + 1) - k - 5; 10; 10; 10]]) in
   stopped (c_gh s) = true /\ map m_seq (written (c_gh s)) = [0; 1; 3]%nat /\ map m_seq (dropped (c_gh s)) = [2%nat] /\
   reported (c_gh s) = [1].
 Proof. vm_compute. repeat split. Qed.
